@@ -145,6 +145,11 @@ F4M ==  { SetOp("union", TRUE, SumA(From1, NoExpr), SumA(From2, NoExpr)), SetOp(
    \cup { SelX(Derived(GrpA(From1), "D"), <<It(CountStar, "N")>>, NoExpr),
           SelX(Derived(GrpA(From1), "D"), <<It(CountStar, "N"), It(AggE("max", Col("A"), FALSE), "M"), It(AggE("sum", QCol("D", "N"), FALSE), "S")>>, NoExpr),
           [SelX(Derived(GrpA(From1), "D"), <<It(QCol("D", "N"), "K"), It(CountStar, "N")>>, NoExpr) EXCEPT !.group = <<QCol("D", "N")>>] }
+   \* a scalar subquery next to an aggregate, in HAVING and in the select list: evaluated also for the one (empty) group of an
+   \* aggregate query over an empty table
+   \cup { [SelX(From1, <<It(CountStar, "N")>>, NoExpr) EXCEPT !.having = CmpE(c[1], ScalarE(CntS(From2, NoExpr)), L(c[2]))] : c \in {<<">", 0>>, <<"=", 0>>} }
+   \cup { SelX(From1, <<It(CountStar, "N"), It(ScalarE(SelX(From2, <<It(AggE("max", A1, FALSE), "X")>>, NoExpr)), "S")>>, NoExpr),
+          [SelX(From1, <<It(CountStar, "N")>>, NoExpr) EXCEPT !.having = ExistsE(SelX(From2, <<It(L(1), "X")>>, NoExpr), FALSE)] }
    \cup { [SelX(TableRef("W"), <<It(CountStar, "N")>>, NoExpr) EXCEPT !.with = <<[n |-> "W", q |-> GrpA(From1), cols |-> <<>>]>>],
           [SelX(TableRef("W"), <<It(CountStar, "N"), It(AggE("max", Col("A"), FALSE), "M")>>, CmpE(">", Col("N"), L(0)))
               EXCEPT !.with = <<[n |-> "W", q |-> GrpA(From1), cols |-> <<>>]>>] }
